@@ -41,6 +41,8 @@ def main() -> int:
     except ModuleNotFoundError as e:
         print(f'no check module for {pid}: {e}', file=sys.stderr)
         return 2
+    from vf.common import quiet_unraisable
+    quiet_unraisable()
     ctx = Ctx(pid, args.tier, args.seed, getattr(mod, 'LEVEL', LEVELS[pid]))
     try:
         if args.replay:
